@@ -84,13 +84,15 @@ structure Sys where
   th : Tid → TS
   rd : Tid → Bool            -- which goroutines hold the read lock
   wr : Option Tid            -- who holds the write lock
+  pend : Tid → Bool          -- who has announced a `Lock` and waits for the readers to leave (Go's RWMutex: from
+                             -- that moment on no new reader gets in)
   poll : Option Cid          -- poll[addr] (one address; different addresses are independent maps entries)
   fresh : Cid                -- next connection id
   closed : Cid → Bool        -- connections closed by `closeOwn`
   panicked : Bool            -- "fatal error: sync: (R)Unlock of unlocked RWMutex"
 
 def init : Sys :=
-  { th := fun _ => {}, rd := fun _ => false, wr := none, poll := none, fresh := 0,
+  { th := fun _ => {}, rd := fun _ => false, wr := none, pend := fun _ => false, poll := none, fresh := 0,
     closed := fun _ => false, panicked := false }
 
 def upd {α} (f : Tid → α) (t : Tid) (v : α) : Tid → α := fun u => if u = t then v else f u
@@ -110,14 +112,19 @@ def step (p : List Instr) (n : Nat) (s : Sys) (t : Tid) (dialOk : Bool) : Option
     match i with
     | .rlock =>
       if s.wr.isSome then none   -- blocked
+      else if (List.range n).any s.pend then none   -- a writer is waiting: new readers queue behind it
       else some { s with rd := upd s.rd t true, th := upd s.th t (next ts) }
     | .runlock =>
       if s.rd t then some { s with rd := upd s.rd t false, th := upd s.th t (next ts) }
       else some { s with panicked := true }
     | .lock =>
       if s.wr.isSome then none
-      else if (List.range n).any s.rd then none   -- readers present: blocked
-      else some { s with wr := some t, th := upd s.th t (next ts) }
+      else if s.pend t then
+        -- announced: waits for the readers that are inside to leave
+        if (List.range n).any s.rd then none
+        else some { s with wr := some t, pend := upd s.pend t false, th := upd s.th t (next ts) }
+      else if (List.range n).any s.pend then none   -- writers queue on the mutex's inner lock
+      else some { s with pend := upd s.pend t true }   -- announce; the program counter stays
     | .unlock =>
       if s.wr = some t then some { s with wr := none, th := upd s.th t (next ts) }
       else some { s with panicked := true }
